@@ -149,6 +149,7 @@ func TestVerifC20(t *testing.T) {
 		g := world.Generate(r, worldHosts(s, r.Intn), world.Opts{Anomaly: 0, MaxReplies: 4, MaxAncestors: 2, MaxOutbox: 6, Actors: 3, Threads: 2})
 		decorateForHook(g, r)
 		s.SetHandler(wk.Handler(g.World))
+		s.ResetLog() // the byte log is only needed per world; keeping it would grow without bound
 		if !c.Begin(n, fmt.Sprintf("hook %q world %d", hook, n)) {
 			continue
 		}
